@@ -19,6 +19,7 @@ type SVal struct {
 
 type Env struct {
 	quantified bool // inside a quantifier: bound variables must not leak into side facts
+	collect    *[]Term // when set, reachability facts about quantified objects are collected here instead of being asserted
 	noLabels   bool // label-dependent builtins are not available (contract applied at a call site)
 	s          *State
 	vars       map[string]SVal
@@ -556,9 +557,15 @@ func (e *Env) locVal(p *PtrVal, t types.Type) SVal {
 		return SVal{loc: p, gt: t}
 	}
 	v := e.s.loadFrom(e.heap, p)
-	if len(e.s.heap) > 0 && sameMap(e.heap, e.s.heap) && !e.quantified {
+	if len(e.s.heap) > 0 && sameMap(e.heap, e.s.heap) {
 		// reading the current heap: the entry heap is closed under reachability
-		e.s.entryBound(p, v, t)
+		if !e.quantified {
+			e.s.entryBound(p, v, t)
+		} else if e.collect != nil {
+			if f, ok := e.s.entryBoundFact(p, v, t); ok {
+				*e.collect = append(*e.collect, f)
+			}
+		}
 	}
 	return SVal{t: v, gt: t}
 }
@@ -885,6 +892,26 @@ func (e *Env) call(n *SCall) SVal {
 				e.s.x.counter++
 				r := fmt.Sprintf("r!k%d", e.s.x.counter)
 				cs = append(cs, Term{fmt.Sprintf("(forall ((%s Int)) (! (=> (and (< 0 %s) (<= %s %s)) (= (select %s %s) (select %s %s))) :pattern ((select %s %s)) :qid kept))", r, r, r, e.old.alloc.S, cur.S, r, old.S, r, cur.S, r), "Bool"})
+			}
+		}
+		return SVal{t: mkAnd(cs...), gt: boolT}
+	case "keptExcept":
+		// keptExcept(x, locs...): in the given arrays every object of the pre-state other than x is untouched
+		if e.old == nil {
+			e.fail("keptExcept needs a pre-state")
+		}
+		xv := e.rv(e.eval(n.Args[0]))
+		var cs []Term
+		for _, a := range n.Args[1:] {
+			for _, arr := range e.s.x.resolveLocs(e.pkg, []string{specText(a)}) {
+				cur := heapGet(e.s, e.heap, arr, false)
+				old := heapGet(e.s, e.old.heap, arr, false)
+				if cur.S == old.S {
+					continue
+				}
+				e.s.x.counter++
+				r := fmt.Sprintf("r!k%d", e.s.x.counter)
+				cs = append(cs, Term{fmt.Sprintf("(forall ((%s Int)) (! (=> (and (< 0 %s) (<= %s %s) (not (= %s %s))) (= (select %s %s) (select %s %s))) :pattern ((select %s %s)) :qid keptexcept))", r, r, r, e.old.alloc.S, r, xv.S, cur.S, r, old.S, r, cur.S, r), "Bool"})
 			}
 		}
 		return SVal{t: mkAnd(cs...), gt: boolT}
